@@ -10,7 +10,6 @@ import (
 	"go/parser"
 	"go/printer"
 	"go/token"
-	"os"
 	"path/filepath"
 	"sort"
 	"strconv"
@@ -724,7 +723,7 @@ func parseDir(dir string, files ...string) (*token.FileSet, map[string]*ast.Func
 	funcs := map[string]*ast.FuncDecl{}
 	lits := map[string]*ast.CompositeLit{}
 	for _, f := range files {
-		src, err := os.ReadFile(filepath.Join(dir, f))
+		src, err := readSource(filepath.Join(dir, f))
 		if err != nil {
 			return nil, nil, nil, err
 		}
